@@ -96,7 +96,7 @@ def run(ctx):
         rl = None
         ctx.notes.append("record-layer model not present in this tree")
     if mods:
-        ctx.prove(mods)
+        ctx.prove(list(dict.fromkeys(mods + list(getattr(rl, "PROVE_MODULES", [])))))
         ctx.require_theorems(getattr(rl, "THEOREMS", THEOREMS))
         rl.run_reclayer(ctx)
     explore(ctx)
